@@ -44,6 +44,9 @@ func symsFor(cfg ediCfg, variant int) ediSyms {
 	case 2: // two-character delimiters
 		s = ediSyms{seg: "<>", elem: "||", comp: "::", rep: "^^", rel: "?", data: map[string]string{"a": "a", "b": "世", "r": "\r", "n": "\n"}}
 	}
+	if variant == 3 { // CR LF as the (two-character) segment delimiter: a lone LF and a lone CR are data
+		s = ediSyms{seg: "\r\n", elem: "*", comp: ":", rep: "^", rel: "?", data: map[string]string{"a": "a", "b": "b", "r": "\r", "n": "\n"}}
+	}
 	if cfg.SegIsLF {
 		s.data["S"] = s.seg // "S" is plain data when LF is the delimiter; keep its rendering as data
 		s.seg = "\n"
@@ -115,7 +118,36 @@ func c07Replay(args []string) int {
 		if e := json.Unmarshal(line, &c); e != nil {
 			return e
 		}
-		for variant := 0; variant < 3; variant++ {
+		for variant := 0; variant < 4; variant++ {
+			if variant == 3 {
+				// only where the rendering is unambiguous: no escapes, LF not the delimiter, CR/LF kept, and no data CR
+				// directly in front of a data LF or of a delimiter
+				ok := !c.Cfg.Rel && !c.Cfg.SegIsLF && !c.Cfg.IgnoreCRLF
+				for i, x := range c.Str {
+					if x == "r" && (i+1 == len(c.Str) || c.Str[i+1] == "n" || c.Str[i+1] == "S") {
+						ok = false
+					}
+				}
+				// (a segment that is empty or made of CR / LF only is a blank line under a newline delimiter: the rules
+				// for those are the LF-delimiter configuration's, not generated here)
+				seg, nseg := 0, 0
+				for i, x := range c.Str {
+					if x == "S" {
+						if seg == 0 {
+							ok = false
+						}
+						seg, nseg = 0, nseg+1
+					} else if x != "r" && x != "n" {
+						seg++
+					}
+					if i == len(c.Str)-1 && x != "S" && seg == 0 {
+						ok = false
+					}
+				}
+				if !ok {
+					continue
+				}
+			}
 			if variant == 2 && c.Cfg.Rel {
 				// the release character escapes one character; with two-character delimiters "escaped delimiter"
 				// is not a notion the abstract alphabet can express, so those renderings are used without escapes only
@@ -174,7 +206,7 @@ func c07Replay(args []string) int {
 				continue
 			}
 			// (2) element lookup through the full reader (first segment only, ASCII variant): values handed to the transform
-			if variant != 0 || len(c.Segs) == 0 || len(c.Lookups) != len(declSets) {
+			if (variant != 0 && variant != 3) || len(c.Segs) == 0 || len(c.Lookups) != len(declSets) {
 				continue
 			}
 			segName := exp[0][0].V
